@@ -117,10 +117,85 @@ def run(ctx):
                  "inverted masks %s); both sides must use 0x8000 and strip with 0x7FFF" % (
                      tn, [hex(x) for x in ors], [hex(x) for x in ands], [hex(x) for x in eqs], [hex(x) for x in nots]),
                  "%s:%d" % (wcb.file, wcb.line))
+    class_word_rule(ctx, report)
     header_round_trip(ctx, report)
     report.assumptions += ["equality of values for all packets is not decided (symmetric mistakes are C10's schema check); "
                            "value-dependent behaviour (SVCB BTreeMap order, TXT cached size, empty TXT) is outside a layout argument"]
     return report.finish()
+
+
+def class_word_rule(ctx, report, rule="C02-R2"):
+    """C02-R2 (values): on every successful path of Question::write_common / ResourceRecord::write_common the 16-bit word written
+    after the type is  class code | 0x8000 iff the unicast-response / cache-flush flag is set, for every class value"""
+    from tables import Evaluator, EnumVal, Opaque, NotATable, Extractor
+    prog = ctx.prog
+    write_all_ok = lambda vals: EnumVal("Result", "Ok", [0])
+    hooks = {("call", "std::io::Write::write_all"): write_all_ok}
+    cadt = prog.adts.get("simple_dns::dns::CLASS")
+    qadt = prog.adts.get("simple_dns::dns::QCLASS")
+    radt = prog.adts.get("simple_dns::dns::rdata::RData")
+    if cadt is None or qadt is None or radt is None:
+        report.lost_anchor("CLASS / QCLASS / RData definitions")
+        return
+    classes = [(v["name"], int(v["discr"])) for v in cadt["variants"]]
+    a_ix = [i for i, v in enumerate(radt["variants"]) if v["name"] == "A"][0]
+    cases = []
+    qb = prog.find("simple_dns::Question::write_common")
+    rb = prog.find("simple_dns::ResourceRecord::write_common")
+    if qb is not None:
+        qvals = [(EnumVal("QCLASS", "CLASS", [EnumVal("CLASS", n)]), c, "CLASS(%s)" % n) for n, c in classes]
+        for v in qadt["variants"]:
+            if v["name"] != "CLASS":
+                qvals.append((EnumVal("QCLASS", v["name"]), {"ANY": 255, "NONE": 254}.get(v["name"]), v["name"]))
+        for val, code, label in qvals:
+            for flag in (0, 1):
+                cases.append((qb, {"qclass": val, "qtype": EnumVal("QTYPE", "ANY"), "unicast_response": flag, "qname": Opaque("qname")},
+                              code, flag, "Question", "qclass %s, unicast_response %d" % (label, flag)))
+    if rb is not None:
+        for n, c in classes:
+            for flag in (0, 1):
+                cases.append((rb, {"class": EnumVal("CLASS", n), "cache_flush": flag, "ttl": 300, "name": Opaque("name"),
+                                   "rdata": EnumVal("RData", "A", [Opaque("a")])},
+                              c, flag, "ResourceRecord", "class %s, cache_flush %d" % (n, flag)))
+    bad = []
+    n = 0
+    try:
+        tables_cache = {}
+        for body, selfv, code, flag, tn, label in cases:
+            if code is None:
+                continue
+            if body.id not in tables_cache:
+                ex = Extractor(prog, body)
+                tables_cache[body.id] = (ex.run(), ex.leaf_effects)
+            leaves, effects = tables_cache[body.id]
+            ev = Evaluator(prog, hooks)
+            args = [selfv, Opaque("out")]
+            words = None
+            for (conds, res), eff in zip(leaves, effects):
+                if any(c[0] == "err" for c in conds):
+                    continue
+                if not ev.conds_hold(conds, args):
+                    continue
+                words = [ev.term(a[0], args) for nm, a in eff if nm.endswith("::to_be_bytes") and a]
+                break
+            n += 1
+            if words is None or len(words) < 2:
+                bad.append("%s::write_common (%s): cannot evaluate the words written (%r)" % (tn, label, words))
+                continue
+            want = code | (0x8000 if flag else 0)
+            # the class word is the second 16-bit word written (after the type)
+            if words[1] != want:
+                bad.append("%s::write_common writes %s as class word %s; required %#06x (the flag is the top bit, the class the rest)" % (
+                    tn, label, ("%#06x" % words[1]) if isinstance(words[1], int) else repr(words[1]), want))
+    except NotATable as e:
+        bad.append("write_common is no longer a loop-free decision table: %s" % e)
+    report.count(n)
+    report.extra["class_word_cases"] = n
+    if not bad and n:
+        report.nontriv("class word values")
+        report.sample({"rule": rule, "domain": "%d (class, flag) combinations" % n, "result": "class word = class | 0x8000 iff flag"})
+    for m in bad[:4]:
+        viol(report, rule, "write_common", "class-word", m)
 
 
 def header_round_trip(ctx, report):
